@@ -165,8 +165,9 @@ func (r *Router) handleHTTPRequest(ctx *Context) {
 		ctx.Set(CTXCurrentRouteName, route.name)
 		ctx.Set(CTXCurrentRoutePath, path)
 
-		// append main handler to last
-		handlers = append(route.handlers, route.handler)
+		// append main handler to last. Notice: build a new slice, an in-place append
+		// would write into the backing array shared with concurrent requests.
+		handlers = combineHandlers(route.handlers, HandlersChain{route.handler})
 	} else if len(allowed) > 0 { // method not allowed
 		if len(r.noAllowed) == 0 {
 			r.noAllowed = HandlersChain{internal405Handler}
@@ -185,7 +186,7 @@ func (r *Router) handleHTTPRequest(ctx *Context) {
 
 	// has global middleware handlers
 	if len(r.handlers) > 0 {
-		handlers = append(r.handlers, handlers...)
+		handlers = combineHandlers(r.handlers, handlers)
 	}
 
 	ctx.SetHandlers(handlers)
